@@ -1607,6 +1607,8 @@ class Abs:
                     base[self._native_key(t.slice)] = v
                 except IndexError as ex:
                     raise Raised("IndexError(%s)" % ex)
+                except ValueError as ex:
+                    raise Raised("ValueError(%s)" % ex)          # numpy's own refusals (shape mismatch, a sequence into one element)
                 return
             if isinstance(base, dict):
                 base[self._key(k)] = v
